@@ -265,14 +265,9 @@ theorem sample_norm_sound {α : Type} (fo fr : ℕ → α) (c : Cfg) (ops : List
   · show fr _ = _; rw [h3]
   · intro hm; show fo _ = _; rw [h4 hm]
 
-/-! ### Non-vacuity: the hypotheses above are met by concrete non-trivial data -/
-
-/-- capacity `7 // 2 = 3`, two environments, 5 adds (wraps), standard variant with timeout handling -/
-def exOps : List Op :=
-  (List.range 5).map fun a => Op.add [⟨10 * a + 1, 10 * a + 2, 10 * a + 3, 10 * a + 4, a % 2 == 1, a == 3⟩,
-                                      ⟨10 * a + 5, 10 * a + 6, 10 * a + 7, 10 * a + 8, a == 2, false⟩]
-
-def exCfg : Cfg := ⟨7, 2, false, true, false⟩
+/-! ### Non-vacuity: the hypotheses above are met by concrete non-trivial data
+(`exCfg`/`exOps`: capacity `7 // 2 = 3`, two environments, 5 adds — wraps —, standard variant with timeout handling;
+`exMem`/`exMemOps`: memory-optimised, capacity 3, full after 4 chained adds; both defined in `Lemmas/Replay.lean`) -/
 
 example : exCfg.cap = 3 ∧ exCfg.valid = true := by decide
 example : exOps.all (Op.wf exCfg.nEnvs) = true := by decide
@@ -285,12 +280,6 @@ example : (run exCfg exOps).get 1 0 = ⟨41, 42, 43, 44, 0⟩ ∧ (run exCfg exO
 /-- `sample_complete` hypotheses: add 2 is still stored (5 ≤ 2 + 3), add 1 is not -/
 example : (2 % exCfg.cap, 1) ∈ (run exCfg exOps).domain := by decide
 example : (run exCfg exOps).domain.length = 6 := by decide
-
-/-- memory-optimised, capacity 3, full after 4 chained adds: two drawable slots, slot `pos` excluded -/
-def exMem : Cfg := ⟨3, 1, true, false, false⟩
-def exMemOps : List Op :=
-  [.add [⟨1, 2, 101, 201, false, false⟩], .add [⟨2, 3, 102, 202, true, false⟩],
-   .add [⟨7, 8, 103, 203, false, false⟩], .add [⟨8, 9, 104, 204, false, false⟩]]
 
 example : exMem.valid = true ∧ (run exMem exMemOps).full = true ∧ (run exMem exMemOps).pos = 1 := by decide
 example : (run exMem exMemOps).sampleSlots = [2, 0] := by decide
